@@ -212,7 +212,7 @@ partial def decEv (j : Json) : Except String Ev := do
             let lp ← o.getObjValAs? Bool "list_precedence"
             pure (some (thresholdOpenListLeaf
               { jumpFraction := jf, quota := q, quotaFraction := qf, takeHigher := th, acceptEqual := ae,
-                listPrecedence := lp }))
+                listPrecedence := lp } (qn == some "hare")))
       pure (.partyList (← sub "party") le none)
   | "vs" => pure (.votingSystem (← sub "e"))
   | _ => throw s!"unknown node {k}"
